@@ -126,7 +126,7 @@ func TestSim(t *testing.T) {
 		stape = simrt.NewTape(simrt.Mix(e.Seed, 2))
 	}
 	e.loadKnown(*flagKnown)
-	e.Cfg = simrt.Config{Strategy: -1, KeepTrace: *flagTrace, MaxSteps: 300000, MaxSimTime: 3 * time.Hour}
+	e.Cfg = simrt.Config{Strategy: -1, KeepTrace: *flagTrace, MaxSteps: 300000, MaxSimTime: 12 * time.Hour}
 	// wall-clock watchdog, outside the bubble (real time)
 	go func() {
 		time.Sleep(240 * time.Second) // real time; generous: the machine may be heavily loaded
